@@ -41,9 +41,13 @@ def _is_leaf(e):
 class Normalizer:
     """rules: list of (z3 var, z3 rhs expr) meaning var*var == rhs"""
 
-    def __init__(self, rules, max_terms=60000):
+    def __init__(self, rules, max_terms=60000, recips=()):
+        # entries (v, rhs) mean v*v == rhs; entries (v, rhs, 'subst') mean v == rhs (v is replaced)
+        self.substs = {r[0].get_id(): r[1] for r in rules if len(r) == 3}
+        rules = [r[:2] for r in rules if len(r) == 2]
         self.rules_z3 = rules
         self.max_terms = max_terms
+        self.recips = list(recips)     # (z3 var rho, z3 expr b) with rho*b == 1 and b != 0 asserted
 
     def _collect(self, exprs):
         leaves, seen = {}, set()
@@ -56,15 +60,22 @@ class Normalizer:
             seen.add(i)
             if z3.is_rational_value(e) or z3.is_int_value(e):
                 continue
+            if i in self.substs:
+                stack.append(self.substs[i])
+                continue
             if _is_leaf(e):
                 leaves[i] = e
                 continue
             stack.extend(e.children())
         return leaves
 
-    def normal_forms(self, exprs):
-        """list of (z3 expr equivalent to the input under the rules, is_zero flag), one shared ring"""
+    def normal_forms(self, exprs, clear_den=False):
+        """list of (z3 expr, is_zero flag), one shared ring.  Without clear_den each output equals its input
+        under the rules; with clear_den it is the input multiplied by a product of (non-zero) divisors, so only
+        `== 0` is preserved."""
         rule_exprs = [v for v, _ in self.rules_z3] + [r for _, r in self.rules_z3]
+        if clear_den:
+            rule_exprs += [v for v, _ in self.recips] + [b for _, b in self.recips]
         leaves = self._collect(list(exprs) + rule_exprs)
         if not leaves:
             return [(e, False) for e in exprs]
@@ -114,6 +125,8 @@ class Normalizer:
             if z3.is_rational_value(e) or z3.is_int_value(e):
                 f = e.as_fraction()
                 r = R(QQ(f.numerator, f.denominator))
+            elif i in self.substs:
+                r = conv(self.substs[i])
             elif i in gen_of:
                 r = gen_of[i]
             else:
@@ -157,9 +170,39 @@ class Normalizer:
                 continue
             rules.append((vi, conv(rhs)))
 
+        recs = []
+        if clear_den:
+            for rho, b in self.recips:
+                ri = idx_of.get(rho.get_id())
+                if ri is not None:
+                    recs.append((ri, reduce(conv(b))))
+
+        def clear(p):
+            for ri, B in recs:
+                d = max((mon[ri] for mon in p), default=0)
+                if d == 0:
+                    continue
+                bp = {0: R(1)}
+                for k in range(1, d + 1):
+                    bp[k] = reduce(bp[k - 1] * B)
+                groups = {}
+                for mon, coeff in p.items():
+                    k = mon[ri]
+                    g = groups.setdefault(d - k, {})
+                    g[mon[:ri] + (0,) + mon[ri + 1:]] = coeff
+                q = R(0)
+                for e, g in groups.items():
+                    q = q + reduce(R.from_dict(g) * bp[e])
+                p = reduce(q)
+                if len(p) > self.max_terms:
+                    raise TooBig(len(p))
+            return p
+
         out = []
         for expr in exprs:
             p = reduce(conv(expr))
+            if clear_den and recs and p != 0:
+                p = clear(p)
             if p == 0:
                 out.append((z3.RealVal(0), True))
                 continue
@@ -177,10 +220,11 @@ class Normalizer:
         return self.normal_forms([expr])[0]
 
 
-def normalize_eq(rules, lhs, rhs, max_terms=60000):
+
+def normalize_eq(rules, lhs, rhs, max_terms=60000, recips=()):
     """z3 formula equivalent (under the rules) to lhs == rhs, and whether it normalised to True"""
     try:
-        nf, zero = Normalizer(rules, max_terms).normal_form(lhs - rhs)
+        nf, zero = Normalizer(rules, max_terms, recips).normal_forms([lhs - rhs], clear_den=bool(recips))[0]
     except TooBig:
         return None, False
     if zero:
@@ -188,13 +232,87 @@ def normalize_eq(rules, lhs, rhs, max_terms=60000):
     return nf == 0, False
 
 
-def which_zero(rules, exprs, max_terms=20000):
+def which_zero(rules, exprs, max_terms=20000, recips=()):
     """index of the first expression that normalises to 0, else None"""
     try:
-        res = Normalizer(rules, max_terms).normal_forms(exprs)
+        res = Normalizer(rules, max_terms, recips).normal_forms(exprs, clear_den=bool(recips))
     except TooBig:
         return None
     for k, (_, z) in enumerate(res):
         if z:
             return k
     return None
+
+
+def exact_quotient(rules, a, b, max_terms=5000):
+    """z3 expr q with a == q*b identically (after rewriting by the rules), or None"""
+    nz = Normalizer(rules, max_terms)
+    rule_exprs = []
+    try:
+        leaves = nz._collect([a, b] + rule_exprs)
+        if not leaves or len(leaves) > 40:
+            return None
+        ids = sorted(leaves)
+        R, *gens = _ring([f'g{k}' for k in range(len(ids))], QQ)
+        gen_of = {i: g for i, g in zip(ids, gens)}
+
+        memo = {}
+
+        def conv(e):
+            i = e.get_id()
+            if i in memo:
+                return memo[i]
+            if z3.is_rational_value(e) or z3.is_int_value(e):
+                f = e.as_fraction()
+                r = R(QQ(f.numerator, f.denominator))
+            elif i in gen_of:
+                r = gen_of[i]
+            else:
+                k = e.decl().kind()
+                ch = e.children()
+                if k == z3.Z3_OP_ADD:
+                    r = R(0)
+                    for c in ch:
+                        r = r + conv(c)
+                elif k == z3.Z3_OP_SUB:
+                    r = conv(ch[0])
+                    for c in ch[1:]:
+                        r = r - conv(c)
+                elif k == z3.Z3_OP_UMINUS:
+                    r = -conv(ch[0])
+                elif k == z3.Z3_OP_TO_REAL:
+                    r = conv(ch[0])
+                elif k == z3.Z3_OP_MUL:
+                    r = R(1)
+                    for c in ch:
+                        r = r * conv(c)
+                elif k == z3.Z3_OP_POWER:
+                    r = conv(ch[0]) ** ch[1].as_fraction().numerator
+                elif k == z3.Z3_OP_DIV:
+                    f = ch[1].as_fraction()
+                    r = conv(ch[0]) * R(QQ(f.denominator, f.numerator))
+                else:
+                    raise TooBig('node')
+            if len(r) > max_terms:
+                raise TooBig(len(r))
+            memo[i] = r
+            return r
+
+        pa, pb = conv(a), conv(b)
+        if pb == 0 or len(pb) > 50:
+            return None
+        q, rem = pa.div(pb)
+        if rem != 0:
+            return None
+        terms = []
+        for mon, coeff in q.items():
+            t = z3.RealVal(f'{coeff.numerator}/{coeff.denominator}')
+            for k, ex in enumerate(mon):
+                for _ in range(ex):
+                    t = t * leaves[ids[k]]
+            terms.append(t)
+        if not terms:
+            return z3.RealVal(0)
+        return z3.Sum(terms) if len(terms) > 1 else terms[0]
+    except TooBig:
+        return None
